@@ -43,6 +43,9 @@ M_RESTRICT = "unbonded-result-without-documented-restriction"
 M_LAW = "oracle-law-broken"
 M_HANG = "merge-does-not-terminate"
 M_SWAP = "completion-returns-the-expansion-compound"
+# the documented restrictions: pairs of boundary symbols whose bond `merge` may refuse (S-halogen; any two of N, O, halogens)
+_HET = ["N", "O", "F", "Cl", "Br", "I"]
+DOCUMENTED_RESTRICTIONS = {"S bond restriction": (["S"], ["F", "Cl", "Br", "I"]), "bond restriction": (_HET, _HET)}
 
 # constructed molecules: every hetero-atom pair the restriction rules name, P=O / P-O / S-X / N-N / N-O / O-O, metals and
 # semi-metals of `form M-OH`, ethers / esters / amides / thio analogues, bracket atoms with explicit hydrogens
@@ -832,7 +835,8 @@ def stmt_roundtrip(ctx, case, out, jt):
         ctx.count("restriction:" + rule["name"])
         # documented = the two cut atoms are the symbols the rule lists, and the result is the two fragments side by side
         syms = [case["sides"][0]["sym"], case["sides"][1]["sym"]]
-        c1, c2 = rule.get("condition1", {}).get("atom", []), rule.get("condition2", {}).get("atom", [])
+        # (the DOCUMENTED pairs, pinned here and in Properties/C09.lean — not whatever the data file lists today)
+        c1, c2 = DOCUMENTED_RESTRICTIONS.get(rule["name"], ([], []))
         listed = (syms[0] in c1 and syms[1] in c2) or (syms[1] in c1 and syms[0] in c2)
         parts = sorted(nostereo(r["smiles"]).split("."))
         want = sorted(x for sd in case["sides"] for x in nostereo(sd["smiles"]).split("."))
@@ -899,7 +903,7 @@ def stmt_expansion(ctx, case, k, out, jt):
         # the expansion compound was refused by a documented restriction (reported): fragment and compound side by side
         ctx.count("expansion refused by:" + mr["name"])
         csym = comp.GetAtomWithIdx(used[0]["compound"]["index"]).GetSymbol()
-        c1, c2 = mr.get("condition1", {}).get("atom", []), mr.get("condition2", {}).get("atom", [])
+        c1, c2 = DOCUMENTED_RESTRICTIONS.get(mr["name"], ([], []))
         listed = (sd["sym"] in c1 and csym in c2) or (csym in c1 and sd["sym"] in c2)
         parts = sorted(nostereo(r["smiles"]).split("."))
         want = sorted(frag.split(".") + nostereo(used[0]["compound"]["smiles"]).split("."))
